@@ -459,7 +459,12 @@ func (p *vspPresence) RemovePresence(ch string, clientID string, userID string) 
 		return p.inner.RemovePresence(ch, clientID, userID)
 	}
 	var err error
-	e.s.gate("presrm", ch, false, func(bool) {
+	e.s.gate("presrm", ch, true, func(fail bool) {
+		if fail {
+			// injected PresenceManager failure: the entry stays (its removal is the call that failed)
+			err = fmt.Errorf("verif: injected presence remove failure")
+			return
+		}
 		err = p.inner.RemovePresence(ch, clientID, userID)
 	})
 	return err
